@@ -709,9 +709,11 @@ class EvolutionSuperOperator(SuperOperator, TimeDependent, Saveable):
         if time is not None:
             ti, dt = self.time.locate(time)
 
-            return SuperOperator(data=self.data[ti, :, :, :, :])
+            # a copy: the returned object is basis managed on its own and
+            # must not share memory with this one (both would be transformed)
+            return SuperOperator(data=self.data[ti, :, :, :, :].copy())
         else:
-            return SuperOperator(data=self.data)
+            return SuperOperator(data=self.data.copy())
 
           
     def apply(self, time, target, copy=True):
